@@ -190,6 +190,9 @@ func init() {
 	allocators["NUintptr"] = allocT[NUintptr]("NUintptr")
 	allocators["NFloat32"] = allocT[NFloat32]("NFloat32")
 	allocators["NFloat64"] = allocT[NFloat64]("NFloat64")
+	allocators["MInt32"] = allocT[MInt32]("MInt32")
+	allocators["MUint16"] = allocT[MUint16]("MUint16")
+	allocators["MFloat32"] = allocT[MFloat32]("MFloat32")
 
 	pools["int"] = poolT[int]("int")
 	pools["int8"] = poolT[int8]("int8")
@@ -207,6 +210,9 @@ func init() {
 	pools["NInt16"] = poolT[NInt16]("NInt16")
 	pools["NUint8"] = poolT[NUint8]("NUint8")
 	pools["NFloat32"] = poolT[NFloat32]("NFloat32")
+	pools["MInt32"] = poolT[MInt32]("MInt32")
+	pools["MUint16"] = poolT[MUint16]("MUint16")
+	pools["MFloat32"] = poolT[MFloat32]("MFloat32")
 }
 
 // SomeNamed are three named element types (signed, unsigned, floating) that the
